@@ -27,4 +27,15 @@ CHECKS = {
              'histories of 30 operations on objects up to 3x6 with cancelling/fractional/large values are validated the same way.',
         note='Trusted: TLC; the NumPy transcription in Sparse.tla (cross-checked against NumPy itself on every step: a disagreement aborts the check); '
              'dyadic values make float arithmetic exact. Out of contract: division by zero, column operands (m,1), 2-d single-row operands on 1-d targets.'),
+    'C10': dict(
+        engine='Indexer', category='model_checking',
+        technique='TLA+ spec of key classification, dense read/write meaning and the two bounded lookup caches (Indexer.tla) model-checked by TLC; TLC witness paths and long random lookup/write histories executed on real indexers; TLC validates every returned value and the data after every step',
+        text='TLC explores every history of lookups and cross-package resolutions over the model key set with tiny cache capacities (FIFO eviction and '
+             'trimming happen constantly) and checks that every cached resolution equals the pure classification of its key (CacheCoherent, ResultOK); a '
+             'deviation switch reproducing the original defect must violate the invariant (vacuity guard). The real ChemicalIndexer/MaterialIndexer are then '
+             'driven along TLC witness paths, from TLC-dumped data states, and through histories of 1500-5000 lookups/writes with keys of every form (IDs, CAS, '
+             'aliases, groups, nested tuples/lists, ellipsis, phase forms) so that the real 100- and 500-entry caches are filled and evicted; TLC checks each '
+             'result against the dense meaning of the key and that writes touch only the addressed entries.',
+        note='Trusted: TLC, the projection (indexer.data.to_array()), integer flows/dyadic group compositions (exact). Caches are never constrained in trace '
+             'validation (only observable results), so refactoring the caches raises no alarm.'),
 }
